@@ -4,6 +4,9 @@ import Mathlib.Tactic.Ring
 import Mathlib.Tactic.Linarith
 import Mathlib.Tactic.FieldSimp
 import Mathlib.Tactic.Positivity
+import Mathlib.Data.Rat.Floor
+import Mathlib.Algebra.Order.Floor.Ring
+import Mathlib.Algebra.BigOperators.Group.List.Basic
 /-!
 # C16 — derived descriptors equal their defining formulas
 
@@ -261,5 +264,158 @@ theorem c16_shape_from_invariants (s : Sym3) (l1 l2 l3 : Rat) (h1 : l1 + l2 + l3
 /-- non-vacuity: three values, moments by one pass and by definition -/
 example : (pushAll [1, 2, 6]).mean = 3 ∧ (pushAll [1, 2, 6]).second = 14 / 3 ∧ (pushAll [1, 2, 6]).third = 6 := by
   decide +kernel
+
+/-! ## radial distribution function: histogram bins, shell volumes (π factored out) -/
+
+theorem floorR_eq (x : Rat) : x.floor = ⌊x⌋ := rfl
+
+theorem edge_zero (lo hi : Rat) (n : Nat) : edge lo hi n 0 = lo := by simp [edge]
+theorem edge_last (lo hi : Rat) (n : Nat) (hn : 0 < n) : edge lo hi n n = hi := by
+  have : (n : Rat) ≠ 0 := by exact_mod_cast (Nat.pos_iff_ne_zero.mp hn)
+  simp only [edge]; field_simp; ring
+
+/-- **every value of the range falls into exactly the bin whose edges enclose it** (half-open bins, the last one closed) -/
+theorem c16_rdf_bin_spec (lo hi : Rat) (n : Nat) (d : Rat) (hlh : lo < hi) (hn : 0 < n) (k : Nat) (h : binIndex lo hi n d = some k) :
+    k < n ∧ edge lo hi n k ≤ d ∧ (d < edge lo hi n (k + 1) ∨ (d = hi ∧ k = n - 1)) := by
+  have hnq : (0 : Rat) < n := by exact_mod_cast hn
+  have hw : 0 < hi - lo := by linarith
+  unfold binIndex at h
+  split at h
+  · simp at h
+  · rename_i hr
+    push_neg at hr
+    split at h
+    · rename_i he
+      simp only [Option.some.injEq] at h
+      subst h
+      refine ⟨by omega, ?_, Or.inr ⟨he, rfl⟩⟩
+      have e : ((n - 1 : Nat) : Rat) = (n : Rat) - 1 := by
+        rw [Nat.cast_sub hn]; simp
+      simp only [edge, e]
+      rw [he]
+      have : lo + (hi - lo) * ((n : Rat) - 1) / n = hi - (hi - lo) / n := by field_simp; ring
+      rw [this]
+      have : 0 < (hi - lo) / n := div_pos hw hnq
+      linarith
+    · rename_i hne
+      simp only [Option.some.injEq] at h
+      set q := (d - lo) * n / (hi - lo) with hq
+      have hq0 : 0 ≤ q := by
+        apply div_nonneg _ (le_of_lt hw)
+        exact mul_nonneg (by linarith [hr.1]) (le_of_lt hnq)
+      have hdlt : d < hi := lt_of_le_of_ne hr.2 hne
+      have hqn : q < n := by
+        rw [hq, div_lt_iff₀ hw]
+        have : (d - lo) < (hi - lo) := by linarith
+        nlinarith
+      have hf0 : 0 ≤ q.floor := by rw [floorR_eq]; exact Int.floor_nonneg.mpr hq0
+      have hk : (k : Int) = q.floor := by rw [← h]; exact Int.toNat_of_nonneg hf0
+      have h1 : ((q.floor : Int) : Rat) ≤ q := by rw [floorR_eq]; exact Int.floor_le q
+      have h2 : q < ((q.floor : Int) : Rat) + 1 := by rw [floorR_eq]; exact Int.lt_floor_add_one q
+      have hkq : (k : Rat) = ((q.floor : Int) : Rat) := by exact_mod_cast hk
+      refine ⟨?_, ?_, Or.inl ?_⟩
+      · have : (k : Rat) < n := by rw [hkq]; linarith
+        exact_mod_cast this
+      · simp only [edge]
+        have : (hi - lo) * k / n ≤ d - lo := by
+          rw [div_le_iff₀ hnq]
+          have : (k : Rat) * (hi - lo) ≤ q * (hi - lo) := by rw [hkq]; exact mul_le_mul_of_nonneg_right h1 (le_of_lt hw)
+          have e : q * (hi - lo) = (d - lo) * n := by rw [hq]; field_simp
+          linarith
+        linarith
+      · simp only [edge]
+        have : d - lo < (hi - lo) * ((k + 1 : Nat) : Rat) / n := by
+          rw [lt_div_iff₀ hnq]
+          have : q * (hi - lo) < ((k : Rat) + 1) * (hi - lo) := by rw [hkq]; exact mul_lt_mul_of_pos_right h2 hw
+          have e : q * (hi - lo) = (d - lo) * n := by rw [hq]; field_simp
+          push_cast; linarith
+        linarith
+
+/-- **the shell volumes tile the sphere between the two ends of the range** (telescoping sum) -/
+theorem c16_rdf_shell_sum (lo hi : Rat) (n : Nat) (hn : 0 < n) :
+    ((List.range n).map (shellVolOverPi lo hi n)).sum = 4 / 3 * (hi * hi * hi - lo * lo * lo) := by
+  have key : ∀ m : Nat, ((List.range m).map (shellVolOverPi lo hi n)).sum
+      = 4 / 3 * (edge lo hi n m * edge lo hi n m * edge lo hi n m - lo * lo * lo) := by
+    intro m
+    induction m with
+    | zero => simp [edge]
+    | succ m ih =>
+      rw [List.range_succ, List.map_append, List.sum_append, ih]
+      simp only [List.map_cons, List.map_nil, List.sum_cons, List.sum_nil, shellVolOverPi]
+      ring
+  rw [key n, edge_last lo hi n hn]
+
+/-- bin centres are the midpoints of equal bins -/
+theorem c16_rdf_centres (lo hi : Rat) (n k : Nat) (hn : 0 < n) : binCentre lo hi n k = lo + (hi - lo) * (2 * k + 1) / (2 * n) := by
+  have : (n : Rat) ≠ 0 := by exact_mod_cast (Nat.pos_iff_ne_zero.mp hn)
+  simp only [binCentre, edge]; push_cast; field_simp; ring
+
+theorem c16_rdf_bin_lt (lo hi : Rat) (n : Nat) (d : Rat) (hlh : lo < hi) (hn : 0 < n) (k : Nat) (h : binIndex lo hi n d = some k) : k < n :=
+  (c16_rdf_bin_spec lo hi n d hlh hn k h).1
+
+theorem indicator_sum (n k0 : Nat) (h : k0 < n) : ((List.range n).map (fun k => if k0 = k then 1 else 0)).sum = 1 := by
+  induction n with
+  | zero => omega
+  | succ n ih =>
+    rw [List.range_succ, List.map_append, List.sum_append]
+    simp only [List.map_cons, List.map_nil, List.sum_cons, List.sum_nil]
+    by_cases hk : k0 = n
+    · subst hk
+      have : ((List.range k0).map (fun k => if k0 = k then 1 else 0)).sum = 0 := by
+        apply List.sum_eq_zero
+        intro x hx
+        simp only [List.mem_map, List.mem_range] at hx
+        obtain ⟨k, hk, rfl⟩ := hx
+        simp; omega
+      simp [this]
+    · have := ih (by omega)
+      simp [this, hk]
+
+theorem indicator_none (n : Nat) (o : Option Nat) (h : ∀ k, k < n → o ≠ some k) :
+    ((List.range n).map (fun k => if o == some k then 1 else 0)).sum = 0 := by
+  apply List.sum_eq_zero
+  intro x hx
+  simp only [List.mem_map, List.mem_range] at hx
+  obtain ⟨k, hk, rfl⟩ := hx
+  have := h k hk
+  simp [this]
+
+/-- **the histogram counts every distance of the range exactly once** -/
+theorem c16_rdf_hist_total (lo hi : Rat) (n : Nat) (ds : List Rat) (hlh : lo < hi) (hn : 0 < n) :
+    (histogram lo hi n ds).sum = (ds.filter (fun d => decide (lo ≤ d ∧ d ≤ hi))).length := by
+  induction ds with
+  | nil => simp [histogram]
+  | cons d ds ih =>
+    have split : (histogram lo hi n (d :: ds)).sum = ((List.range n).map (fun k => if binIndex lo hi n d == some k then 1 else 0)).sum + (histogram lo hi n ds).sum := by
+      simp only [histogram, List.filter_cons]
+      rw [← List.sum_map_add]
+      congr 1
+      apply List.map_congr_left
+      intro k _
+      by_cases hb : (binIndex lo hi n d == some k) = true <;> simp [hb]; omega
+    rw [split, ih]
+    by_cases hr : lo ≤ d ∧ d ≤ hi
+    · have hsome : ∃ k, binIndex lo hi n d = some k := by
+        unfold binIndex
+        have : ¬ (d < lo ∨ hi < d) := by push_neg; exact hr
+        simp only [this, if_false]
+        split <;> exact ⟨_, rfl⟩
+      obtain ⟨k0, hk0⟩ := hsome
+      have hlt := c16_rdf_bin_lt lo hi n d hlh hn k0 hk0
+      have e : ((List.range n).map (fun k => if binIndex lo hi n d == some k then 1 else 0)).sum = 1 := by
+        rw [hk0]
+        have := indicator_sum n k0 hlt
+        simpa using this
+      rw [e]
+      simp [hr]; omega
+    · have hnone : binIndex lo hi n d = none := by
+        unfold binIndex
+        have : d < lo ∨ hi < d := by
+          by_contra hc; push_neg at hc; exact hr hc
+        simp [this]
+      rw [hnone]
+      have e := indicator_none n (none : Option Nat) (fun k _ => by simp)
+      rw [e]
+      simp [hr]
 
 end MdVerif.Descr
